@@ -85,6 +85,34 @@ def delivered_to_the_current_destination(ctx, exe):
     return len(cases)
 
 
+def both_replaced(ctx, exe):
+    """two serving miners of a contract leave at the same instant while free miners of the same size are connected: both are
+    replaced (harness TestVerifTwoDown: 12 fixed histories; the second disconnect event must reach the watcher although it is busy
+    with the first)"""
+    rc, out = L.run_harness(ctx, exe, "TestVerifTwoDown$", env={"VERIF_FLUSH": 1}, timeout=600)
+    if rc != 0:
+        ctx.tie_failures.append("two-down harness run failed (rc=%d): %s" % (rc, out[-300:]))
+        return 0
+    n = 0
+    for h, lines in L.parse_cases(ctx.out + "/twodown.impl.txt"):
+        accts = [(i, dict(t.split("=", 1) for t in l.split()[3:] if "=" in t)) for i, l in enumerate(lines) if l.startswith("< acct")]
+        downs = [i for i, l in enumerate(lines) if l.startswith("< down2") and len(l.split()) > 2 and "," in l.split()[2]]
+        if not downs or not accts:
+            continue
+        n += 1
+        before = [a for i, a in accts if i < downs[0]]
+        last = accts[-1][1]
+        serving = len([x for x in last.get("full", "").split(",") if x]) + len([x for x in last.get("partial", "").split(",") if x])
+        if before and int(last.get("added", 0)) < int(before[-1].get("added", 0)) + 2 and serving < 3:
+            L.violation(ctx, "c09:one-of-two-miners-that-left-together-is-not-replaced",
+                        "two whole miners of a 3000 GH/s contract left at the same instant with free 1000 GH/s miners connected; 40 s later %d miners work for it and %d tasks were handed out since (%s)" % (
+                            serving, int(last.get("added", 0)) - int(before[-1].get("added", 0)), lines[downs[0]][2:]),
+                        {"clause": "a miner that disconnects is replaced; delivery does not fall behind while enough hashrate is connected", "case": h,
+                         "ops": [l for l in lines if l.startswith("> ")], "how_to_replay": "bin/check C09 --tier quick (the two-down histories are a fixed list; the case names the one)"})
+            break
+    return n
+
+
 def run(ctx):
     ctx.trusted_base += [
         "tools/gofacts c09: the three thresholds of adjustHashrate, its statement skeleton, the booking statements of onCycleEnd and the delivery log fields are re-extracted from contract_seller_v2.go on every run (Gen/C09.lean) and compared with what Model/Delivery.lean was written from (theorems thresholds, cycleEnd_source, adjust_source, log_source)",
@@ -154,6 +182,7 @@ def run(ctx):
             logs += l.startswith("< cyclelog")
         cyc, hrs = world_of(lines)
         pops["too-small" if too_small_for_a_cycle_job(cyc, hrs) else "other"] += 1
+    ctx.coverage["two_miners_leaving_together"] = both_replaced(ctx, exe)
     ctx.coverage["seller_world_histories_with_destination_changes"] = delivered_to_the_current_destination(ctx, exe)
     ctx.coverage.update({
         "evaluations": sum(ops.values()), "distinct_nontrivial": L.distinct_count(cases, lambda h, ls: any(l.startswith("< cyclelog") for l in ls)),
